@@ -49,6 +49,7 @@ func (s *sched) verify(where string) {
 }
 
 type thread struct {
+	service  bool // spawned by a go statement of the code under test (a loop that never ends is not a deadlock)
 	g        uintptr
 	goid     int64
 	id       int
@@ -65,15 +66,18 @@ type PointInfo struct {
 	RunningEnabled bool
 	Chosen         int // index into Enabled
 	Label          string
+	Alt            bool // a data choice of the running thread (e.g. which ready select case), not a thread switch
 }
 
 // Exec is the record of one complete execution.
 type Exec struct {
-	Points   []PointInfo
-	Choices  []int
-	Deadlock bool
-	Panic    string
-	Blocked  []string
+	Points    []PointInfo
+	Choices   []int
+	Quiescent bool // ended with every harness thread finished and all service threads blocked
+	Leaked    bool // some aborted thread did not unwind (blocked for real in a deferred function)
+	Deadlock  bool
+	Panic     string
+	Blocked   []string
 }
 
 type sched struct {
@@ -101,6 +105,11 @@ func Active() bool {
 	s := cur
 	return s != nil && s.active && s.baton >= 0 && s.threads[s.baton].g == getg()
 }
+
+// Exploring reports whether an execution is in progress (from any goroutine).
+//
+//go:norace
+func Exploring() bool { s := cur; return s != nil && s.active }
 
 // mine reports whether the caller is the baton holder.
 //
@@ -177,7 +186,7 @@ func (s *sched) choose(running int, label string) int {
 				pending = true
 			}
 		}
-		for i := 0; pending && i < 5000 && len(en) == 0; i++ {
+		for i := 0; pending && i < DaemonSettle && len(en) == 0; i++ {
 			runtime.Gosched()
 			en, re = s.enabledList(running)
 		}
@@ -208,6 +217,35 @@ func (s *sched) choose(running int, label string) int {
 		exit(2)
 	}
 	return en[c]
+}
+
+// ChooseAlt lets the running thread make an explorer-owned choice among n alternatives (which of
+// several ready select cases fires, which value an environment returns). Alternative 0 is the
+// default; any other costs one unit of the deviation budget, like a preemption.
+//
+//go:norace
+func ChooseAlt(n int, label string) int {
+	s := cur
+	if !s.mine() || n <= 1 {
+		return 0
+	}
+	i := len(s.exec.Points)
+	c := 0
+	if i < len(s.prefix) {
+		c = s.prefix[i]
+		if c >= n {
+			fmt.Printf("HARNESS-ERROR: vsched replay divergence at alt point %d (%s): choice %d of %d\n", i, label, c, n)
+			exit(2)
+		}
+	}
+	en := make([]int, n)
+	for k := range en {
+		en[k] = k
+	}
+	s.exec.Points = append(s.exec.Points, PointInfo{Enabled: en, RunningEnabled: true, Chosen: c, Label: "alt:" + label, Alt: true})
+	s.exec.Choices = append(s.exec.Choices, c)
+	lastProgress = time.Now()
+	return c
 }
 
 // Point is a scheduling point before a visible operation of the running thread.
@@ -253,16 +291,33 @@ func BlockUntil(label string, can func() bool) {
 	t.blocked = nil
 }
 
+// nobodyEnabled classifies the end of an execution: quiescence (only service threads remain) or deadlock.
+//
 //go:norace
-func (s *sched) deadlock() {
-	s.exec.Deadlock = true
+func (s *sched) nobodyEnabled() {
+	harnessPending := false
 	for _, t := range s.threads {
-		if !t.finished {
-			s.exec.Blocked = append(s.exec.Blocked, t.name)
+		if !t.finished && !t.service {
+			harnessPending = true
 		}
+	}
+	if harnessPending {
+		s.exec.Deadlock = true
+		for _, t := range s.threads {
+			if !t.finished {
+				s.exec.Blocked = append(s.exec.Blocked, t.name)
+			}
+		}
+	} else {
+		s.exec.Quiescent = true
 	}
 	s.abort = true
 	s.baton = -1
+}
+
+//go:norace
+func (s *sched) deadlock() {
+	s.nobodyEnabled()
 	runtime.Goexit()
 }
 
@@ -291,6 +346,13 @@ func Yield() { Point("yield") }
 // set-up (constructors, Start methods), thread when spawned by a running thread.
 var SpawnPolicy = map[string]string{}
 
+// DaemonSettle is how many processor yields a scheduler with no enabled thread grants to foreign
+// goroutines (daemons in pass-through mode that may hold a lock) before concluding deadlock/quiescence.
+var DaemonSettle = 5000
+
+// OnRunStart hooks run at the start of every execution (shims reset per-execution registries).
+var OnRunStart []func()
+
 // GoStmt is what the overlay turns `go f(x)` into.
 //
 //go:norace
@@ -315,7 +377,7 @@ func GoStmt(label string, fn func()) {
 	}
 	switch mode {
 	case "thread":
-		Go(label, fn)
+		goThread(label, fn, true)
 	case "daemon":
 		go fn()
 	default:
@@ -328,13 +390,16 @@ func GoStmt(label string, fn func()) {
 // Start, or from a running thread); otherwise it is a plain goroutine.
 //
 //go:norace
-func Go(name string, fn func()) {
+func Go(name string, fn func()) { goThread(name, fn, false) }
+
+//go:norace
+func goThread(name string, fn func(), service bool) {
 	s := cur
 	if s == nil {
 		go fn()
 		return
 	}
-	t := &thread{id: len(s.threads), name: name, fn: fn}
+	t := &thread{id: len(s.threads), name: name, fn: fn, service: service}
 	s.threads = append(s.threads, t)
 	s.realWG.Add(1)
 	go s.runThread(t)
@@ -368,7 +433,7 @@ func (s *sched) threadExit(t *thread) {
 	t.finished = true
 	next := s.choose(-1, "exit:"+t.name)
 	if next == -2 {
-		// nobody enabled: either all finished or deadlock
+		// nobody enabled: all finished, quiescent service threads, or deadlock
 		all := true
 		for _, o := range s.threads {
 			if !o.finished {
@@ -376,13 +441,7 @@ func (s *sched) threadExit(t *thread) {
 			}
 		}
 		if !all {
-			s.exec.Deadlock = true
-			for _, o := range s.threads {
-				if !o.finished {
-					s.exec.Blocked = append(s.exec.Blocked, o.name)
-				}
-			}
-			s.abort = true
+			s.nobodyEnabled()
 		}
 		s.baton = -1
 		return
@@ -397,6 +456,9 @@ func (s *sched) threadExit(t *thread) {
 func Run(prefix []int, setup func()) *Exec {
 	s := &sched{baton: -1, prefix: prefix, exec: &Exec{}, maxPts: 200000}
 	cur = s
+	for _, h := range OnRunStart {
+		h()
+	}
 	setup() // threads registered; s.active false → shims pass through
 	s.active = true
 	lastProgress = time.Now()
@@ -419,7 +481,16 @@ func Run(prefix []int, setup func()) *Exec {
 		// release parked threads: they Goexit in wait()
 		s.abort = true
 	}
-	s.realWG.Wait() // real happens-before edge for post-run oracle reads
+	// real happens-before edge for post-run oracle reads. Aborted threads unwind through the deferred
+	// functions of the code under test, which can block for real (a lock left held by another aborted
+	// thread): such goroutines are abandoned after a grace period instead of hanging the explorer.
+	joined := make(chan struct{})
+	go func() { s.realWG.Wait(); close(joined) }()
+	select {
+	case <-joined:
+	case <-time.After(5 * time.Second):
+		s.exec.Leaked = true
+	}
 	cur = nil
 	return s.exec
 }
@@ -454,7 +525,7 @@ func (e *Explorer) preemptionsBefore(x *Exec, i int) int {
 	n := 0
 	for k := 0; k < i; k++ {
 		p := x.Points[k]
-		if p.RunningEnabled && p.Chosen != 0 {
+		if p.RunningEnabled && p.Chosen != 0 { // a preemption, or a non-default alternative
 			n++
 		}
 	}
